@@ -214,7 +214,7 @@ func init() {
 	register(&Check{
 		ID: "C18",
 		Expl: "Decides that no type is dropped by a conversion direction: (E4.api-marshal) every total native→API converter has a case (or a value-preserving default) for every concrete type the decoders can put into the interface it switches on — the universe is exact, taken from the MakeInterface instructions of decode-side code; (E4.api-unmarshal) every API→native type switch over a protobuf oneof covers all wrapper types of that oneof; " +
-			"(E4.decode-produces) conversely, every native type has a decoder row; (E3.config-api-symmetry) every neighbour / peer-group / global configuration field the API→config converters accept is written back by the config→API converters; (E3.statement-provenance) the listed conditions of a policy statement are computed from its conditions and the listed actions from its actions. Also: (E2.loop-carried-struct) a struct copied into a collection per loop element is declared or wholly overwritten inside the iteration. (E4.case-ratchet) against a committed baseline, no switch of the code this property is anchored in has lost a named case.",
+			"(E4.decode-produces) conversely, every native type has a decoder row; (E3.config-api-symmetry) every neighbour / peer-group / global configuration field the API→config converters accept is written back by the config→API converters; (E3.statement-provenance) the listed conditions of a policy statement are computed from its conditions and the listed actions from its actions. Also: (E2.loop-carried-struct) a struct copied into a collection per loop element is declared or wholly overwritten inside the iteration. (E4.case-ratchet) against a committed baseline, no switch of the code this property is anchored in has lost a named case. (E6.call-ratchet) against a committed baseline, no function of that code has stopped calling (directly or through helpers) a non-trivial callee it called on the reviewed tree.",
 		Not: "That each value is converted correctly (field by field, byte for byte) and that API→native→API is the identity are value-level and not decided.",
 		Run: func(c *Ctx) {
 			c.ruleAPIMarshalTotal()
@@ -223,6 +223,7 @@ func init() {
 			c.ruleConfigAPISymmetry()
 			c.ruleStatementProvenance()
 			c.ruleCaseRatchet("E4.case-ratchet", []string{"pkg/apiutil", "pkg/config/oc", "pkg/server"}, func(f string) bool {
+			c.ruleCallRatchet("E6.call-ratchet", []string{"pkg/apiutil", "pkg/config/oc", "pkg/server"}, func(f string) bool { return !strings.Contains(f, "pkg/server/") || strings.HasSuffix(f, "grpc_server.go") }, "baselines/calls.json", 100)
 				return !strings.Contains(f, "pkg/server/") || strings.HasSuffix(f, "grpc_server.go")
 			}, "baselines/switches.json", 50)
 			c.ruleLoopCarriedStruct("E2.loop-carried-struct", []string{"pkg/server", "pkg/config/oc", "pkg/apiutil"}, 5)
